@@ -168,8 +168,15 @@ def bool_switch_edges(body, ch, pred):
         if t["k"] != "switch" or body.tyix(t["dty"])["s"] != "bool":
             continue
         e, neg = unwrap_not(ch.origin(t["discr"]))
+        exact = True
         if not pred(e):
-            continue
+            # a predicate moved into a private helper: `fn sig_ok(&self) -> bool { verify_signature(..) }`.  The helper returning
+            # true implies the wrapped test was true (the converse only if the helper has no other way to return false)
+            inner, exact = helper_truth(getattr(body.unit, "program", None), e)
+            if inner is None or not pred(inner):
+                exact = False
+                if not helper_implies(getattr(body.unit, "program", None), e, pred):
+                    continue
         out["sites"].append(bb)
         zero = [tgt for v, tgt in t["targets"] if v == 0]
         one = [tgt for v, tgt in t["targets"] if v == 1]
@@ -177,10 +184,77 @@ def bool_switch_edges(body, ch, pred):
         false_t = zero if zero else ([other] if one else [])
         true_t = one if one else ([other] if zero else [])
         for tgt in false_t:
-            out["true" if neg else "false"].add((bb, tgt))
+            if neg or exact:
+                out["true" if neg else "false"].add((bb, tgt))
         for tgt in true_t:
-            out["false" if neg else "true"].add((bb, tgt))
+            if not neg or exact:
+                out["false" if neg else "true"].add((bb, tgt))
     return out
+
+
+_HELPER_TRUTH = {}
+
+
+def subst_params(e, args):
+    """the callee's expression with its parameters replaced by the caller's argument expressions"""
+    if isinstance(e, tuple):
+        if e and e[0] == "param" and isinstance(e[1], int) and 1 <= e[1] <= len(args):
+            return args[e[1] - 1]
+        return tuple(subst_params(x, args) for x in e)
+    if isinstance(e, list):
+        return [subst_params(x, args) for x in e]
+    return e
+
+
+def helper_implies(prog, e, pred, depth=0):
+    """`e` is a call of a workspace function returning bool that can return true only through the true edge of a test satisfying
+    pred (after substituting the arguments for its parameters): `if !check(..) { log; return false } true`"""
+    if prog is None or e[0] != "call" or depth > 1:
+        return False
+    callee = prog.bodies.get(e[1])
+    if callee is None or callee.is_promoted or callee.is_coroutine or callee.ty(0)["s"] != "bool" or callee.nblocks > 200:
+        return False
+    from .expr import Chaser
+    from .paths import Explorer
+    ch = Chaser(callee)
+    sub = bool_switch_edges(callee, ch, lambda x: pred(subst_params(x, e[2])))
+    if not sub["sites"] or not sub["true"]:
+        return False
+    found = Explorer(callee).explore(0, deleted_edges=sub["true"], accept=make_accept(callee, return_true=True))
+    return not found
+
+
+def helper_truth(prog, e, depth=0):
+    """(E, exact): for a call of a workspace function returning bool whose result is `E` or the constant false, the expression E
+    (in the callee's own terms) such that `call == true  =>  E == true`; exact when the callee returns E on every path"""
+    if prog is None or e[0] != "call" or depth > 2:
+        return None, False
+    callee = prog.bodies.get(e[1])
+    if callee is None or callee.is_promoted or callee.is_coroutine or callee.ty(0)["s"] != "bool" or callee.nblocks > 60:
+        return None, False
+    if callee.path in _HELPER_TRUTH and _HELPER_TRUTH[callee.path][0] is prog:
+        return _HELPER_TRUTH[callee.path][1]
+    from .expr import Chaser
+    ch = Chaser(callee)
+    exprs, consts = [], []
+    for d in callee.defs(0):
+        if d[0] == "stmt":
+            x = ch.rvalue(d[3], 0)
+            if x[0] == "const":
+                consts.append(bool(x[1]))
+            else:
+                exprs.append(x)
+        elif d[0] == "call":
+            tt = d[2]
+            exprs.append(("call", tt.get("res") or tt.get("callee") or "?", [ch.origin(a) for a in tt["args"]], d[1]))
+    r = (None, False)
+    if len(exprs) == 1 and True not in consts:
+        x, neg = unwrap_not(exprs[0])
+        if not neg:
+            inner, ex2 = helper_truth(prog, x, depth + 1)
+            r = (inner, ex2 and not consts) if inner is not None else (x, not consts)
+    _HELPER_TRUTH[callee.path] = (prog, r)
+    return r
 
 
 def promoted_value(prog, body, const_expr):
